@@ -44,6 +44,14 @@ IDS_JUNK = ["", "nope", "!not set", "M0000000-0", "ID-999", " ", "⁡", "a b", "
 DIRS = ["", "/nonexistent/Rules", "/repo/Cargo.toml", "/repo", "/", "/repo/Rules/Languages", "relative/Rules", "/repo/Rules/../Rules"]
 
 
+BIG = "1234567890" * 4
+EXTREME = ["<mfrac><mn>1</mn><mn>%s</mn></mfrac>" % BIG[:21], "<mfrac><mn>%s</mn><mn>%s</mn></mfrac>" % (BIG[:25], BIG[:33]), "<msup><mi>x</mi><mn>%s</mn></msup>" % BIG,
+           "<mroot><mi>x</mi><mn>%s</mn></mroot>" % BIG[:22], "<mrow><mn>%s.%s</mn><mo>+</mo><mn>0.%s</mn></mrow>" % (BIG, BIG, BIG), "<mn>%s</mn>" % ("9" * 400),
+           "<mrow><mn>1,234,567,890,123,456,789,012,345</mn><mo>&#x2212;</mo><mn>1e400</mn></mrow>", "<msub><mi>a</mi><mn>%s</mn></msub>" % BIG[:30],
+           "<mi>%s</mi>" % ("x" * 300), "<mrow><mi>sin</mi><mo>&#x2061;</mo><mn>%s</mn></mrow>" % BIG, "<mfrac><mn>%s</mn><mn>2</mn></mfrac>" % BIG[:20],
+           "<mfrac><mn>0</mn><mn>0</mn></mfrac>", "<msup><mn>2</mn><mn>-%s</mn></msup>" % BIG[:25], "<mmultiscripts><mi>C</mi><mn>%s</mn><none/><mprescripts/><mn>%s</mn><mn>%s</mn></mmultiscripts>" % (BIG[:21], BIG[:22], BIG[:23])]
+
+
 def nav_commands():
     import re
     src = open(os.path.join(C.REPO, "src", "navigate.rs"), encoding="utf-8").read()
@@ -57,7 +65,12 @@ def pref_names():
     return sorted(set(k for _, k, _, _ in r)), {k: kind for _, k, kind, _ in r}
 
 
+OPTIONS = {}
+
+
 def gen_history(rng, names, kinds, cmds, bodies, length):
+    if not OPTIONS:
+        OPTIONS.update({k: v for k, v in C.pref_options().items() if len(v) > 1})
     ops = []
     if rng.random() < 0.85:
         ops.append(["set_rules_dir", C.RULES])
@@ -69,6 +82,10 @@ def gen_history(rng, names, kinds, cmds, bodies, length):
             q = rng.random()
             s = X.math(rng.choice(bodies)) if q < 0.45 else (X.math(c01.degenerate(rng, rng.randint(1, 4))) if q < 0.75 else rng.choice(GARBAGE))
             ops.append(["set_mathml", s])
+        elif r < 0.29:
+            # a documented value of a documented preference (the options the rules branch on)
+            n = rng.choice(sorted(OPTIONS))
+            ops.append(["set_preference", n, rng.choice(OPTIONS[n])])
         elif r < 0.40:
             n = rng.choice(names + c12.UNKNOWN_NAMES)
             k = kinds.get(n)
@@ -150,7 +167,7 @@ def histories(res):
     rng = random.Random((res.seed if res else 1) * 4099 + 8)
     names, kinds = pref_names()
     cmds = nav_commands()
-    bodies = list(X.FIXED) + [X.gen(rng, 3, kinds=X.MORE_KINDS) for _ in range(30)]
+    bodies = list(X.FIXED) + EXTREME + [X.gen(rng, 3, kinds=X.MORE_KINDS) for _ in range(30)]
     n = 160 if tier == "quick" else 2400
     hs = []
     for i in range(n):
@@ -220,7 +237,7 @@ def oracle(res):
 def run(res):
     res.rule = ("160 (quick) / 2400 seeded histories of 3-40 calls over every public entry point: set_rules_dir (valid and 8 invalid), set_mathml (textbook, seeded, "
                 "degenerate trees, 60 malformed / non-MathML / non-XML strings), set_preference / get_preference (every name of the dump + unknown names x values of "
-                "every kind), all getters incl. junk navigation ids, every navigation command of NAV_COMMANDS + 29 junk names, key codes with modifier "
+                "every kind, and the documented options of Rules/prefs.yaml), all getters incl. junk navigation ids, every navigation command of NAV_COMMANDS + 29 junk names, key codes with modifier "
                 "combinations, set_navigation_node with valid / invalid ids and offsets, braille positions up to 10^9; with and without set_rules_dir first; "
                 "then set_rules_dir + a valid expression compared with a fresh session given the accepted preference calls; nesting depth probe on an 8 MB stack; "
                 "non-trivial = histories longer than 10 calls")
